@@ -748,3 +748,304 @@ Proof. apply no_overflow; cbn; try lia. intros f r b [<-|[]] [E|[E|[E|[]]]]; inv
 (* non-vacuity of cover/bytes: a row group that is really cut *)
 Example cut_instance : cut 30 10 100 = [(0, 3, 30); (3, 3, 30); (6, 2, 20); (8, 2, 20)].
 Proof. vm_compute. reflexivity. Qed.
+
+(* ================================================================== *)
+(* 8. with distinct file names the final sort is the identity: the output is, in this order, the
+      pieces of each row group of each file in file-name order                                   *)
+
+Section SortedId.
+  Context {A : Type} (le : A -> A -> bool).
+  Lemma isort_sorted_id l : StronglySorted (fun x y => le x y = true) l -> isort le l = l.
+  Proof.
+    induction 1 as [|h t SSt IH Fh]; [reflexivity|].
+    cbn [isort fold_right]. fold (isort le t). rewrite IH.
+    destruct t as [|a t']; [reflexivity|]. cbn [insert].
+    inversion Fh as [|? ? Ha _]; subst. now rewrite Ha.
+  Qed.
+End SortedId.
+
+Lemma SS_app {A} (R : A -> A -> Prop) l1 l2 :
+  StronglySorted R l1 -> StronglySorted R l2 -> (forall x y, In x l1 -> In y l2 -> R x y) ->
+  StronglySorted R (l1 ++ l2).
+Proof.
+  induction 1 as [|h t SSt IH Fh]; intros S2 X; cbn [app]; [exact S2|].
+  constructor.
+  - apply IH; auto. intros x y Hx Hy. apply X; auto. now right.
+  - apply Forall_app. split; [exact Fh|]. apply Forall_forall. intros y Hy. apply X; auto. now left.
+Qed.
+
+Lemma SS_flat_map {A B} (RA : A -> A -> Prop) (RB : B -> B -> Prop) (f : A -> list B) l :
+  StronglySorted RA l -> (forall a, In a l -> StronglySorted RB (f a)) ->
+  (forall a b, In a l -> In b l -> RA a b -> forall x y, In x (f a) -> In y (f b) -> RB x y) ->
+  StronglySorted RB (flat_map f l).
+Proof.
+  induction 1 as [|h t SSt IH Fh]; intros Hin Hx; cbn [flat_map]; [constructor|].
+  apply SS_app.
+  - apply Hin. now left.
+  - apply IH; [intros; apply Hin; now right | intros a b Ha Hb; apply Hx; now right].
+  - intros x y Hxh Hyt. apply in_flat_map in Hyt. destruct Hyt as (b & Hb & Hy).
+    rewrite Forall_forall in Fh. eapply (Hx h b); eauto; [now left | now right].
+Qed.
+
+(* strict order on row groups: by file name, then by index *)
+Definition rg_lt (g1 g2 : rowgroup) : Prop :=
+  bytes_cmp (g_file g1) (g_file g2) = Lt \/ (g_file g1 = g_file g2 /\ g_index g1 < g_index g2).
+Definition key_lt (x y : split) : Prop := key_cmp x y = Lt.
+
+Lemma rgs_of_sorted name rgs : forall idx,
+  StronglySorted rg_lt (rgs_of name idx rgs)
+  /\ Forall (fun g => g_file g = name /\ idx <= g_index g) (rgs_of name idx rgs).
+Proof.
+  induction rgs as [|[r b] t IH]; intros idx; cbn [rgs_of]; [split; constructor|].
+  destruct (IH (idx + 1)) as [S F].
+  assert (Forall (fun g => g_file g = name /\ idx <= g_index g) (rgs_of name (idx + 1) t)) as F'.
+  { eapply Forall_impl; [|exact F]. cbv beta. intros g [? ?]. split; auto. lia. }
+  destruct (r <=? 0); [split; assumption|]. split.
+  - constructor; [exact S|]. eapply Forall_impl; [|exact F]. cbv beta. intros g [Hf Hi].
+    right. cbn [g_file g_index]. split; [now symmetry | lia].
+  - constructor; [cbn; split; [reflexivity | lia] | exact F'].
+Qed.
+
+Lemma SS_strict_of_NoDup (files : list file) :
+  StronglySorted (fun x y => file_le x y = true) files -> NoDup (map fst files) ->
+  StronglySorted (fun x y => bytes_cmp (fst x) (fst y) = Lt) files.
+Proof.
+  induction 1 as [|h t SSt IH Fh]; intros ND; [constructor|].
+  cbn [map] in ND. inversion ND as [|? ? Nin NDt]; subst. constructor; [now apply IH|].
+  rewrite Forall_forall in *. intros y Hy. specialize (Fh y Hy). unfold file_le in Fh.
+  apply cmp_le_true in Fh. destruct (bytes_cmp (fst h) (fst y)) eqn:E; try congruence.
+  apply bytes_cmp_eq in E. exfalso. apply Nin. rewrite E. now apply in_map.
+Qed.
+
+Lemma inventory_sorted files : NoDup (map fst files) -> StronglySorted rg_lt (inventory files).
+Proof.
+  intros ND. unfold inventory.
+  apply (SS_flat_map (fun x y : file => bytes_cmp (fst x) (fst y) = Lt)).
+  - apply SS_strict_of_NoDup; [apply (isort_SS file_le file_le_total file_le_trans)|].
+    eapply Permutation_NoDup; [|exact ND]. apply Permutation_map, Permutation_sym, isort_perm.
+  - intros f _. apply rgs_of_sorted.
+  - intros f1 f2 _ _ L g1 g2 H1 H2.
+    destruct (rgs_of_sorted (fst f1) (snd f1) 0) as [_ F1]. destruct (rgs_of_sorted (fst f2) (snd f2) 0) as [_ F2].
+    rewrite Forall_forall in F1, F2. destruct (F1 g1 H1) as [E1 _]. destruct (F2 g2 H2) as [E2 _].
+    left. now rewrite E1, E2.
+Qed.
+
+Lemma contiguous_s_sorted table name idx ps : forall o,
+  contiguous_s o ps -> Forall (fun s => s_table s = table /\ s_file s = name /\ s_rg s = idx) ps ->
+  StronglySorted key_lt ps /\ Forall (fun s => o <= s_off s) ps.
+Proof.
+  induction ps as [|s t IH]; intros o C F; [split; constructor|].
+  destruct C as (Eo & Pn & C). apply Forall_cons_iff in F. destruct F as [(Et & Ef & Er) Ft].
+  destruct (IH _ C Ft) as [S Lo]. split.
+  - constructor; [exact S|]. rewrite Forall_forall in *. intros y Hy.
+    destruct (Ft y Hy) as (Et' & Ef' & Er'). specialize (Lo y Hy).
+    unfold key_lt, key_cmp. rewrite Et', Et, Ef', Ef, Er', Er, !bytes_cmp_refl, Z.compare_refl. cbn [cmp_then].
+    apply Z.compare_lt_iff. lia.
+  - constructor; [lia|]. eapply Forall_impl; [|exact Lo]. cbv beta. intros; lia.
+Qed.
+
+Theorem enumerate_sorted c table files nodes : NoDup (map fst files) ->
+  let ss := enumerate_c c table files nodes in
+  ss_splits ss = flat_map (splits_of_rg table (ss_target ss)) (inventory files)
+  /\ StronglySorted key_lt (ss_splits ss).
+Proof.
+  intros ND ss. set (tg := ss_target ss).
+  assert (StronglySorted key_lt (flat_map (splits_of_rg table tg) (inventory files))) as S.
+  { apply (SS_flat_map rg_lt); [now apply inventory_sorted| |].
+    - intros g Hg. destruct (splits_of_rg_facts table tg g) as (_ & C & _ & F); [apply (inventory_rows_pos files g Hg)|].
+      eapply (contiguous_s_sorted table (g_file g) (g_index g)); [exact C|]. apply Forall_forall. exact F.
+    - intros g1 g2 H1 H2 L x y Hx Hy.
+      destruct (splits_of_rg_facts table tg g1) as (_ & _ & _ & F1); [apply (inventory_rows_pos files g1 H1)|].
+      destruct (splits_of_rg_facts table tg g2) as (_ & _ & _ & F2); [apply (inventory_rows_pos files g2 H2)|].
+      destruct (F1 x Hx) as (Tx & Fx & Rx). destruct (F2 y Hy) as (Ty & Fy & Ry).
+      unfold key_lt, key_cmp. rewrite Tx, Ty, Fx, Fy, Rx, Ry, bytes_cmp_refl. cbn [cmp_then].
+      destruct L as [L|[E L]].
+      + now rewrite L.
+      + rewrite E, bytes_cmp_refl. cbn [cmp_then]. assert (g_index g1 ?= g_index g2 = Lt) as -> by now apply Z.compare_lt_iff.
+        reflexivity. }
+  assert (ss_splits ss = flat_map (splits_of_rg table tg) (inventory files)) as E.
+  { unfold ss, enumerate_c. cbn [ss_splits]. apply isort_sorted_id.
+    eapply StronglySorted_ind with (P := fun l => StronglySorted (fun x y => split_le x y = true) l); [constructor | | exact S].
+    intros a l _ IH Fa. constructor; [exact IH|]. eapply Forall_impl; [|exact Fa]. cbv beta.
+    intros y Hy. unfold split_le. unfold key_lt in Hy. now rewrite Hy. }
+  split; [exact E | rewrite E; exact S].
+Qed.
+
+(* ================================================================== *)
+(* 9. the model meets the executable specification (distinct names, i64 footers) *)
+
+Lemma bytes_eqb_refl a : bytes_eqb a a = true.
+Proof. now apply (list_eqb_spec Z.eqb Z.eqb_eq). Qed.
+Lemma bytes_eqb_eq a b : bytes_eqb a b = true <-> a = b.
+Proof. apply (list_eqb_spec Z.eqb Z.eqb_eq). Qed.
+
+Lemma strictly_sorted_of_SS l : StronglySorted key_lt l -> strictly_sorted_b l = true.
+Proof.
+  induction 1 as [|x t SSt IH Fx]; [reflexivity|]. cbn [strictly_sorted_b]. rewrite IH, andb_true_r.
+  destruct t as [|y t']; [reflexivity|]. inversion Fx as [|? ? Hy _]; subst. unfold key_lt in Hy. now rewrite Hy.
+Qed.
+
+Lemma contiguous_b_of_s l : forall o, contiguous_s o l -> contiguous_b o l = true.
+Proof.
+  induction l as [|s t IH]; intros o C; [reflexivity|]. destruct C as (E & P & C).
+  cbn [contiguous_b]. rewrite IH by exact C. rewrite E, Z.eqb_refl. cbn [andb].
+  destruct (Z.ltb_spec 0 (s_rows s)); [reflexivity | lia].
+Qed.
+
+Lemma filter_all {A} (p : A -> bool) l : (forall x, In x l -> p x = true) -> filter p l = l.
+Proof.
+  induction l as [|h t IH]; intros H; [reflexivity|]. cbn [filter]. rewrite (H h) by now left.
+  f_equal. apply IH. intros; apply H; now right.
+Qed.
+Lemma filter_none {A} (p : A -> bool) l : (forall x, In x l -> p x = false) -> filter p l = [].
+Proof.
+  induction l as [|h t IH]; intros H; [reflexivity|]. cbn [filter]. rewrite (H h) by now left.
+  apply IH. intros; apply H; now right.
+Qed.
+Lemma filter_flat_map {A B} (p : B -> bool) (f : A -> list B) l :
+  filter p (flat_map f l) = flat_map (fun a => filter p (f a)) l.
+Proof.
+  induction l as [|h t IH]; [reflexivity|]. cbn [flat_map]. rewrite filter_app, IH. reflexivity.
+Qed.
+
+Definition rg_key_is (name : list Z) (idx : Z) (g : rowgroup) : Prop := g_file g = name /\ g_index g = idx.
+
+Lemma rg_lt_not_same g1 g2 name idx : rg_lt g1 g2 -> rg_key_is name idx g1 -> rg_key_is name idx g2 -> False.
+Proof.
+  intros [L|[_ L]] [F1 I1] [F2 I2].
+  - rewrite F1, F2, bytes_cmp_refl in L. discriminate.
+  - lia.
+Qed.
+
+Section Select.
+  Variables (table : list Z) (tg : Z) (name : list Z) (idx : Z).
+  Let P := splits_of_rg table tg.
+
+  Lemma filter_group g : 0 < g_rows g ->
+    filter (in_group name idx) (P g) = if bytes_eqb (g_file g) name && (g_index g =? idx) then P g else [].
+  Proof.
+    intros Hr. destruct (splits_of_rg_facts table tg g Hr) as (_ & _ & _ & F). fold P in F.
+    destruct (bytes_eqb (g_file g) name && (g_index g =? idx)) eqn:E.
+    - apply filter_all. intros s Hs. destruct (F s Hs) as (_ & Ef & Er). unfold in_group. now rewrite Ef, Er.
+    - apply filter_none. intros s Hs. destruct (F s Hs) as (_ & Ef & Er). unfold in_group. now rewrite Ef, Er.
+  Qed.
+
+  Lemma key_is_b g : bytes_eqb (g_file g) name && (g_index g =? idx) = true <-> rg_key_is name idx g.
+  Proof. unfold rg_key_is. rewrite andb_true_iff, bytes_eqb_eq, Z.eqb_eq. tauto. Qed.
+
+  Lemma select_none l : (forall g, In g l -> 0 < g_rows g) -> (forall g, In g l -> ~ rg_key_is name idx g) ->
+    filter (in_group name idx) (flat_map P l) = [].
+  Proof.
+    intros Hr Hn. rewrite filter_flat_map. induction l as [|h t IH]; [reflexivity|]. cbn [flat_map].
+    rewrite filter_group by (apply Hr; now left).
+    destruct (bytes_eqb (g_file h) name && (g_index h =? idx)) eqn:E.
+    - apply key_is_b in E. exfalso. apply (Hn h); auto. now left.
+    - cbn [app]. apply IH; intros; [apply Hr | apply Hn]; now right.
+  Qed.
+
+  Lemma select_one l g0 : StronglySorted rg_lt l -> (forall g, In g l -> 0 < g_rows g) ->
+    In g0 l -> rg_key_is name idx g0 -> filter (in_group name idx) (flat_map P l) = P g0.
+  Proof.
+    induction 1 as [|h t SSt IH Fh]; intros Hr Hin Hk; [destruct Hin|].
+    cbn [flat_map]. rewrite filter_app, filter_group by (apply Hr; now left).
+    destruct Hin as [->|Hin].
+    - apply key_is_b in Hk as Hb. rewrite Hb. rewrite select_none; [apply app_nil_r | intros; apply Hr; now right|].
+      intros g Hg Kg. rewrite Forall_forall in Fh. eapply rg_lt_not_same; [apply (Fh g Hg) | exact Hk | exact Kg].
+    - destruct (bytes_eqb (g_file h) name && (g_index h =? idx)) eqn:E.
+      + apply key_is_b in E. exfalso. rewrite Forall_forall in Fh.
+        eapply rg_lt_not_same; [apply (Fh g0 Hin) | exact E | exact Hk].
+      + cbn [app]. apply IH; auto. intros; apply Hr; now right.
+  Qed.
+End Select.
+
+Lemma groups_of_In name rgs : forall idx g,
+  In g (groups_of name idx rgs) <-> exists i rows b, nth_error rgs i = Some (rows, b) /\ g = (name, idx + Z.of_nat i, rows, b).
+Proof.
+  induction rgs as [|[r b] t IH]; intros idx g; cbn [groups_of].
+  - split; [intros []|]. intros ([|i] & ? & ? & E & _); discriminate.
+  - cbn [In]. rewrite IH. split.
+    + intros [<-|(i & rows & b0 & E & ->)].
+      * exists O, r, b. split; [reflexivity|]. replace (idx + Z.of_nat 0) with idx by lia. reflexivity.
+      * exists (S i), rows, b0. split; [exact E|]. replace (idx + Z.of_nat (S i)) with (idx + 1 + Z.of_nat i) by lia. reflexivity.
+    + intros ([|i] & rows & b0 & E & ->).
+      * left. cbn in E. inversion E; subst. replace (idx + Z.of_nat 0) with idx by lia. reflexivity.
+      * right. exists i, rows, b0. split; [exact E|]. replace (idx + Z.of_nat (S i)) with (idx + 1 + Z.of_nat i) by lia. reflexivity.
+Qed.
+
+Lemma all_groups_In files g :
+  In g (all_groups files) <-> exists f i rows b, In f files /\ nth_error (snd f) i = Some (rows, b) /\ g = (fst f, Z.of_nat i, rows, b).
+Proof.
+  unfold all_groups. rewrite in_flat_map. split.
+  - intros (f & Hf & Hg). apply groups_of_In in Hg. destruct Hg as (i & rows & b & E & ->). exists f, i, rows, b. auto.
+  - intros (f & i & rows & b & Hf & E & ->). exists f. split; auto. apply groups_of_In. exists i, rows, b. auto.
+Qed.
+
+Definition live_r (g : list Z * Z * Z * Z) : Z := let '(_, _, rows, _) := g in if rows <=? 0 then 0 else rows.
+Definition live_b (g : list Z * Z * Z * Z) : Z := let '(_, _, rows, b) := g in if rows <=? 0 then 0 else Z.max b 0.
+
+Lemma rgs_groups_sums name rgs : forall idx,
+  zsum (map g_rows (rgs_of name idx rgs)) = zsum (map live_r (groups_of name idx rgs))
+  /\ zsum (map g_bytes (rgs_of name idx rgs)) = zsum (map live_b (groups_of name idx rgs)).
+Proof.
+  induction rgs as [|[r b] t IH]; intros idx; cbn [rgs_of groups_of map]; [split; reflexivity|].
+  destruct (IH (idx + 1)) as [I1 I2]. rewrite !zsum_cons. unfold live_r at 1, live_b at 1.
+  destruct (r <=? 0); cbn [map]; rewrite ?zsum_cons; cbn [g_rows g_bytes]; lia.
+Qed.
+
+Lemma inventory_totals files :
+  zsum (map g_rows (inventory files)) = live_rows files /\ zsum (map g_bytes (inventory files)) = live_bytes files.
+Proof.
+  rewrite (zsum_perm _ _ (Permutation_map g_rows (inventory_perm files))).
+  rewrite (zsum_perm _ _ (Permutation_map g_bytes (inventory_perm files))).
+  unfold live_rows, live_bytes, all_groups. fold live_r live_b.
+  rewrite !zsum_flat_map. split; apply zsum_map_ext_in; intros f _; apply rgs_groups_sums.
+Qed.
+
+Theorem model_meets_spec c table files nodes :
+  NoDup (map fst files) -> i64_files files ->
+  spec_ok table files (enumerate_c c table files nodes) = true.
+Proof.
+  intros ND W. set (ss := enumerate_c c table files nodes).
+  destruct (enumerate_sorted c table files nodes ND) as [E S]. fold ss in E, S. cbv zeta in E, S.
+  set (tg := ss_target ss) in *.
+  assert (forall g, In g (inventory files) -> 0 < g_rows g) as Hpos by (intros g Hg; apply (inventory_rows_pos files g Hg)).
+  assert (forall s, In s (ss_splits ss) -> exists g, In g (inventory files) /\ In s (splits_of_rg table tg g)) as Hsrc.
+  { intros s Hs. rewrite E in Hs. apply in_flat_map in Hs. exact Hs. }
+  unfold spec_ok. rewrite !andb_true_iff. repeat split.
+  - apply bytes_eqb_refl.
+  - apply forallb_forall. intros s Hs. destruct (Hsrc s Hs) as (g & Hg & Hin).
+    destruct (splits_of_rg_facts table tg g (Hpos g Hg)) as (_ & _ & _ & F). destruct (F s Hin) as (-> & _). apply bytes_eqb_refl.
+  - now apply strictly_sorted_of_SS.
+  - apply forallb_forall. intros g4 Hg4. apply all_groups_In in Hg4.
+    destruct Hg4 as (f & i & rows & b & Hf & En & ->). unfold group_ok. rewrite E.
+    destruct (Z.leb_spec rows 0) as [Le|Gt].
+    + rewrite (select_none table tg (fst f) (Z.of_nat i)); auto.
+      intros g Hg [Kf Ki]. apply inventory_exact in Hg. destruct Hg as (f' & i' & rows' & b' & Hf' & En' & P' & ->).
+      cbn [g_file g_index] in Kf, Ki.
+      assert (f' = f) by (apply (NoDup_map_inj_in fst files ND); auto). subst f'.
+      assert (i' = i) by lia. subst i'. rewrite En in En'. inversion En'; subst. lia.
+    + set (g0 := mkRG (fst f) (Z.of_nat i) rows (Z.max b 0)).
+      assert (In g0 (inventory files)) as Hg0 by (apply inventory_exact; exists f, i, rows, b; auto).
+      rewrite (select_one table tg (fst f) (Z.of_nat i) (inventory files) g0); auto;
+        [|now apply inventory_sorted | split; reflexivity].
+      destruct (splits_of_rg_facts table tg g0 (Hpos g0 Hg0)) as (NE & C & Sr & _).
+      destruct (inventory_range files g0 W Hg0) as [Rr Rb].
+      pose proof (splits_of_rg_bytes table tg g0 Rr Rb) as Sb.
+      rewrite (contiguous_b_of_s _ _ C), Sr, Sb. cbn [g_rows g_bytes g0]. rewrite !Z.eqb_refl.
+      destruct (splits_of_rg table tg g0); [congruence | reflexivity].
+  - apply forallb_forall. intros s Hs. destruct (Hsrc s Hs) as (g & Hg & Hin).
+    destruct (splits_of_rg_facts table tg g (Hpos g Hg)) as (_ & _ & _ & F). destruct (F s Hin) as (_ & Ef & Er).
+    apply inventory_exact in Hg. destruct Hg as (f & i & rows & b & Hf & En & P & ->).
+    apply existsb_exists. exists (fst f, Z.of_nat i, rows, b). split; [apply all_groups_In; exists f, i, rows, b; auto|].
+    cbn [g_file g_index] in Ef, Er. unfold in_group. rewrite Ef, Er, bytes_eqb_refl, Z.eqb_refl. cbn [andb].
+    now apply Z.ltb_lt.
+  - apply Z.eqb_eq. apply (inventory_totals files).
+  - apply Z.eqb_eq. apply (inventory_totals files).
+  - apply Z.eqb_eq. apply (total_rows_exact c table files nodes).
+  - apply Z.eqb_eq. now apply (total_bytes_exact c table files nodes).
+Qed.
+
+Example model_meets_spec_instance :
+  spec_ok [116] [([98], [(10, 100); (0, 5); (7, -1)]); ([97], [(1000, 1099511627776)])]
+          (enumerate [116] [([98], [(10, 100); (0, 5); (7, -1)]); ([97], [(1000, 1099511627776)])] 3) = true.
+Proof. vm_compute. reflexivity. Qed.
